@@ -126,7 +126,7 @@ def run(ctx):
 
 
 def replay(case, ctx):
-    emb = tuple(case['embedding'])
+    emb = tuple(case.get('embedding') or ctx.embedding)
     P = dict(programs(emb[1], emb[2], case['kind']))
     r = _run((tuple(case['word']), case['program'], P[case['program']], case['kind'], case['fee'], case['leverage'], case['fast'], emb, case.get('program2')))
     return [Violation.from_json(v) for v in r['viols']]
